@@ -279,15 +279,7 @@ func (e *Enc) val(v ssa.Value) Term {
 }
 
 // fnTerm gives each static function a distinct positive identifier.
-func (e *Enc) fnTerm(f *ssa.Function) Term {
-	k := f.String()
-	id, ok := e.fnIDs[k]
-	if !ok {
-		id = 1000 + len(e.fnIDs)
-		e.fnIDs[k] = id
-	}
-	return IntLit(int64(id))
-}
+func (e *Enc) fnTerm(f *ssa.Function) Term { return e.prog.fnTermByName(f.String()) }
 
 func (e *Enc) define(v ssa.Value, t Term) {
 	name := fmt.Sprintf("v_%s", sanitize(v.Name()))
